@@ -32,7 +32,8 @@ def main():
             'engine': 'mirfacts+rules',
             'level_claimed': {
                 'category': 'other',
-                'text': m.EXPLANATION,
+                'text': m.EXPLANATION + ' Rules as built (incl. those added after the seeded-change rounds, DESIGN §5.0.1): '
+                        + '; '.join('%s = %s' % kv for kv in getattr(m, 'RULES', {}).items()),
                 'design_ref': 'DESIGN.md §5 ' + p,
             },
             'level_note': 'Static analysis of the type-checked program (rustc nightly MIR, resolved callees). Trusted: rustc MIR '
@@ -56,7 +57,7 @@ def main():
             {'name': 'mirfacts', 'path': 'mirfacts/', 'serves_properties': [c['property_id'] for c in checks],
              'kind_free_text': 'rustc_private driver (RUSTC_WORKSPACE_WRAPPER under cargo +nightly check) dumping pre-borrowck MIR, resolved callees, ADTs, impls, consts, coroutine layouts as JSON facts'},
             {'name': 'rules', 'path': 'sa/ rules/ check', 'serves_properties': [c['property_id'] for c in checks],
-             'kind_free_text': 'Python rule engine over the fact base: CFG dominance / gating, call-graph reachability, writers/readers, EXPR/PRED reconstruction, decision tables'},
+             'kind_free_text': 'Python rule engine over the fact base: CFG dominance / gating, call-graph reachability, writers/readers, EXPR/PRED reconstruction, decision tables, exact path conditions, bounded inlining of unknown helpers'},
         ],
         'checks': checks,
         'not_applicable': na,
